@@ -45,6 +45,8 @@ type c14world struct {
 	ag                             *ir.AttrGroupDef // attribute group holding one attribute twice
 	agRep, agDrop                  bool
 	nmd, nmdRen                    bool
+	cd                             *ir.ComdatDef // comdat attached to a global before it is registered
+	cdReg                          bool
 }
 
 func c14new() *c14world {
@@ -332,6 +334,16 @@ func c14ops() []c14op {
 		c14op{"drop the first attribute of the group (FuncAttrs = FuncAttrs[1:])", "edit-attr-list", "global-attr", func(w *c14world) bool { return w.ag != nil && !w.agDrop }, func(w *c14world) {
 			w.agDrop = true
 			w.ag.FuncAttrs = w.ag.FuncAttrs[1:]
+		}},
+		// an entity refers to a definition the module does not list YET (a printer that "repairs" the
+		// module by listing it itself is contradicted by the registration that follows).
+		c14op{"attach comdat $grp (not yet listed in m.ComdatDefs) to the first global", "attach-comdat", "global-attr", func(w *c14world) bool { return len(w.m.Globals) > 0 && w.cd == nil }, func(w *c14world) {
+			w.cd = &ir.ComdatDef{Name: "grp", Kind: enum.SelectionKindAny}
+			w.m.Globals[0].Comdat = w.cd
+		}},
+		c14op{"register the comdat (m.ComdatDefs = append(m.ComdatDefs, $grp))", "register-comdat", "global-attr", func(w *c14world) bool { return w.cd != nil && !w.cdReg }, func(w *c14world) {
+			w.cdReg = true
+			w.m.ComdatDefs = append(w.m.ComdatDefs, w.cd)
 		}},
 		c14op{"add named metadata !b10 and !b2", "append-named-metadata", "metadata", func(w *c14world) bool { return !w.nmd }, func(w *c14world) {
 			w.nmd = true
